@@ -137,11 +137,14 @@ def r06_2(ctx):
 
     class H2(H):
         def decide(self, interp, test, env, fi):
-            if isinstance(test, ast.Compare) and len(test.ops) == 1 and isinstance(test.ops[0], (ast.Gt, ast.Lt)) and \
-                    isinstance(test.left, ast.Name) and isinstance(test.comparators[0], ast.Attribute) and \
-                    test.comparators[0].attr == "_midway":
-                k = ">" if isinstance(test.ops[0], ast.Gt) else "<"
-                if queue[k]:
+            if isinstance(test, ast.Compare) and len(test.ops) == 1 and isinstance(test.ops[0], (ast.Gt, ast.Lt)):
+                l, r = test.left, test.comparators[0]
+                k = None
+                if isinstance(l, ast.Name) and isinstance(r, ast.Attribute) and r.attr == "_midway":
+                    k = ">" if isinstance(test.ops[0], ast.Gt) else "<"            # point > node._midway
+                elif isinstance(r, ast.Name) and isinstance(l, ast.Attribute) and l.attr == "_midway":
+                    k = "<" if isinstance(test.ops[0], ast.Gt) else ">"            # node._midway < point
+                if k is not None and queue[k]:
                     return queue[k].pop(0)
             return bk.BrownianHooks.decide(self, interp, test, env, fi)
     hooks = H2()
